@@ -3,6 +3,7 @@ import PqModel.Stats
 import PqModel.LevelStats
 import PqModel.StatsDecimal
 import PqModel.StatsRecord
+import PqModel.StatsMulti
 
 /-! Ops of C05 (statistics / page indexes). Numeric values travel as unsigned decimal BIT PATTERNS
     (`i32 4294967291` is -5; `f32 2143289344` is a NaN), byte strings as hex (`e` = empty string, `-` = empty list).
@@ -24,6 +25,9 @@ import PqModel.StatsRecord
                                          pages separated by `;`, values by `,`, `n` = null
     c05.levels <maxDef> <maxRep> <entries>  -> ok <numValues> <numNulls> <numRows> <defHist> <repHist> <unencoded>
                                          entries `def:rep:hex|n` separated by `,`
+    c05.multi <members>               -> ok <asc><desc> <asc><desc>   multiColumnIndex.IsAscending/IsDescending (repaired code,
+                                         then the code before the repair); members separated by `;`, each
+                                         `<asc><desc>/<pages>` with the member's own flags (0/1) and its pages as RANKS `min:max` or `n`
     kinds: i32 i64 u32 u64 f32 f64 | bytes flba dec int96 (hex) | bool -/
 namespace Driver.Ops.C05
 open Driver PqModel PqModel.Stats
@@ -96,8 +100,27 @@ def parseEntry? (s : String) : Option (LevelStats.Entry (List Nat)) :=
     | _, _, _ => none
   | _ => none
 
+/-- ranks compare as naturals -/
+def rankOrder : ColOrder Nat := ofKey (fun n => (n : Int)) (fun _ => false)
+
+/-- `<asc><desc>/<pages>` -/
+def parseMember? (s : String) : Option (MChunk Nat) :=
+  match s.splitOn "/" with
+  | [flags, pages] =>
+    match flags.toList, parseList? (parsePage? parseNat?) pages with
+    | [a, d], some ps => some ⟨ps, a == '1', d == '1'⟩
+    | _, _ => none
+  | _ => none
+
+def bit (b : Bool) : String := if b then "1" else "0"
+
 def handle (toks : List String) : Option String :=
   match toks with
+  | ["c05.multi", members] => some <|
+    match (members.splitOn ";").mapM parseMember? with
+    | some cs =>
+      s!"ok {bit (multiAsc rankOrder cs)}{bit (multiDesc rankOrder cs)} {bit (multiAsc_before_fix rankOrder cs)}{bit (multiDesc_before_fix rankOrder cs)}"
+    | none => "bad-op"
   | ["c05.truncmin", v, n] => some <|
     match parseHexN? v, parseNat? n with
     | some v, some n => s!"ok {hexN (truncMin v n)}"
